@@ -364,6 +364,12 @@ def wrapVariants : List String → J → J
   | [], j => j
   | v :: r, j => .obj (.cons (asciiBytes v) (wrapVariants r j) .nil)
 
+/-- reading the wrappers back: the value inside the given variants -/
+def unwrapVariants : List String → J → Option J
+  | [], j => some j
+  | v :: r, .obj (.cons k inner .nil) => if k = asciiBytes v then unwrapVariants r inner else none
+  | _ :: _, _ => none
+
 /-- `result.as_json()` / `result.as_original()` as `output_result` chooses between them -/
 def valueFor (mode : OutputMode) (r : Rendered) : J :=
   match mode with
